@@ -671,4 +671,17 @@ def run(P, rep, tier):
         rep.ob('C26.FLOW', 'call@%s/after-filters' % g.name, not later and bool(before), g.loc(ev),
                ('the statistics are computed after %s in the iteration and no in-loop filter runs afterwards' % sorted({callee_name(x['e']) for x in before})) if (not later and before) else
                ('an in-loop filter (%s) still runs after the statistics were taken: they describe a picture the decoder never shows' % sorted({callee_name(x['e']) for x in later}) if later else 'no in-loop filter call found in the calling kernel'))
+    # ... and before the picture is handed on: the values are read by packetization, which only the posts of this kernel stand
+    # between; a post that precedes the statistics call on its path lets the consumers run while the values are still being written
+    for g, ev in sites:
+        early = [pv for pv, n in g.calls('svt_post_full_object') if g.ev_dominates(pv, ev) and pv['l'] < ev['l'] and
+                 [x for x in g.ctl_chain(pv) if x[0] in ('for', 'while')][-1:] == [x for x in g.ctl_chain(ev) if x[0] in ('for', 'while')][-1:]]
+        # a post inside an inner loop that finishes before the call (per-tile results) counts as well
+        if not early:
+            outer = [x for x in g.ctl_chain(ev) if x[0] in ('for', 'while')][-1:]
+            early = [pv for pv, n in g.calls('svt_post_full_object') if pv['l'] < ev['l'] and outer and outer[0] in g.ctl_chain(pv) and
+                     not any(k == 'if' and c is not None and not any(k2 == 'if' and c2 is c for k2, c2, l2 in g.ctl_chain(ev)) for k, c, l in g.ctl_chain(pv)[:1])]
+        rep.ob('C26.FLOW', 'call@%s/before-handover' % g.name, not early, g.loc(ev),
+               'no result object is posted before the statistics of the picture are computed in the same iteration' if not early else
+               ('%s posts a result object (line %d) before it calls psnr_calculations: entropy coding and packetization of the same picture may run, and copy the values into the packet, while they are still being written' % (g.name, early[0]['l'])))
     rep.floor('C26.FLOW', 5)
